@@ -571,6 +571,38 @@ func (s *Store) Extract(x *Term, hi, lo int) *Term {
 	if x.op == OpSExt && hi < x.a[0].w {
 		return s.Extract(x.a[0], hi, lo)
 	}
+	if x.w <= 64 {
+		fm := mask(w) << uint(lo) // the bits of x the field reads
+		switch x.op {
+		case OpExtract:
+			return s.Extract(x.a[0], hi+x.p2, lo+x.p2)
+		case OpAnd, OpOr:
+			// a constant operand that is neutral on the field drops out
+			for i := 0; i < 2; i++ {
+				if c := x.a[i]; c.IsConst() {
+					if x.op == OpAnd && c.c&fm == fm {
+						return s.Extract(x.a[1-i], hi, lo)
+					}
+					if x.op == OpOr && c.c&fm == 0 {
+						return s.Extract(x.a[1-i], hi, lo)
+					}
+				}
+			}
+		case OpLShr:
+			if c := x.a[1]; c.IsConst() && int(c.c)+hi < x.w {
+				return s.Extract(x.a[0], hi+int(c.c), lo+int(c.c))
+			}
+		case OpShl:
+			if c := x.a[1]; c.IsConst() && int(c.c) <= lo {
+				return s.Extract(x.a[0], hi-int(c.c), lo-int(c.c))
+			}
+		}
+		r := s.mk(OpExtract, KBV, w, hi, lo, x)
+		if k := fromKnown(r); k != nil {
+			return k
+		}
+		return r
+	}
 	return s.mk(OpExtract, KBV, w, hi, lo, x)
 }
 
